@@ -181,7 +181,7 @@ func (a *nilAnalysis) resolve() {
 							}
 						}
 					}
-					if m.Name() == "PeerType" {
+					if core.RefName(m) == "PeerType" {
 						a.peerType[m] = true
 						for _, impl := range p.Impls(m) {
 							a.peerType[impl] = true
@@ -479,7 +479,7 @@ func (f *nilFunc) atomize(w *facts.Walker, e ast.Expr) facts.Formula {
 		}
 	}
 	if c, ok := e.(*ast.CallExpr); ok {
-		if fn := core.Callee(f.info, c); fn != nil && fn.Name() == "IsPeerIPType" {
+		if fn := core.Callee(f.info, c); fn != nil && core.RefName(fn) == "IsPeerIPType" {
 			if se, ok := c.Fun.(*ast.SelectorExpr); ok {
 				return facts.Atom("isIP:" + w.Path(se.X))
 			}
@@ -639,7 +639,7 @@ func (f *nilFunc) source(e ast.Expr, fm facts.Formula) (kind, desc string) {
 	case *ast.CallExpr:
 		if fn := core.Callee(f.info, x); fn != nil && f.a.getters[fn] {
 			if se, ok := x.Fun.(*ast.SelectorExpr); ok {
-				return "N3", core.Stable(f.info, se.X) + "." + fn.Name() + "()"
+				return "N3", core.Stable(f.info, se.X) + "." + core.RefName(fn) + "()"
 			}
 		}
 		if fn := core.Callee(f.info, x); fn != nil {
@@ -700,9 +700,9 @@ func (f *nilFunc) nonNil(e ast.Expr, kind string, fm facts.Formula) bool {
 		recv := call.Fun.(*ast.SelectorExpr).X
 		isIP := facts.Atom("isIP:" + f.w.Path(recv))
 		switch {
-		case strings.Contains(fn.Name(), "IPBlock"):
+		case strings.Contains(core.RefName(fn), "IPBlock"):
 			return facts.Entails(fm, isIP)
-		case strings.Contains(fn.Name(), "Namespace"):
+		case strings.Contains(core.RefName(fn), "Namespace"):
 			return false // a pod peer may still have no namespace object (N2): only a nil test discharges it
 		default:
 			return facts.Entails(fm, facts.Not{X: isIP})
@@ -868,9 +868,9 @@ func (f *nilFunc) deref(t ast.Expr, at ast.Node, fm facts.Formula) {
 		if call, isCall := t.(*ast.CallExpr); isCall {
 			if se, isSe := call.Fun.(*ast.SelectorExpr); isSe {
 				fn := core.Callee(f.info, call)
-				if idx, suffix, isParam := f.paramSuffix(se.X); isParam && suffix == "" && fn != nil && !strings.Contains(fn.Name(), "Namespace") {
+				if idx, suffix, isParam := f.paramSuffix(se.X); isParam && suffix == "" && fn != nil && !strings.Contains(core.RefName(fn), "Namespace") {
 					req := "@notIP"
-					if strings.Contains(fn.Name(), "IPBlock") {
+					if strings.Contains(core.RefName(fn), "IPBlock") {
 						req = "@isIP"
 					}
 					f.requirePeerType(idx, req, f.a.p.Pos(at.Pos()))
@@ -925,10 +925,10 @@ func (f *nilFunc) checkCoErr(id *ast.Ident, at ast.Node, fm facts.Formula) {
 		}
 	}
 	if facts.Entails(fm, facts.Not{X: facts.Atom("nil:" + f.w.PathOfVar(errObj))}) {
-		c := f.construct("use of "+id.Name+" co-returned with "+errObj.Name()+" on the error path", "N6")
+		c := f.construct("use of "+id.Name+" co-returned with "+core.RefName(errObj)+" on the error path", "N6")
 		if f.a.report {
 			f.a.r.Bad("E2-N6", c, f.a.p.Pos(at.Pos()),
-				fmt.Sprintf("%s was returned together with %s and is used where %s != nil is known: by convention it is the zero value (nil) there", id.Name, errObj.Name(), errObj.Name()),
+				fmt.Sprintf("%s was returned together with %s and is used where %s != nil is known: by convention it is the zero value (nil) there", id.Name, core.RefName(errObj), core.RefName(errObj)),
 				"function: "+f.fd.Key(), "use: "+core.ExprStr(at)+" at "+f.a.p.Pos(at.Pos()))
 		}
 	}
@@ -1347,7 +1347,7 @@ func (f *nilFunc) libraryPrecondition(c *ast.CallExpr, fn *types.Func, fm facts.
 	if !f.a.report || fn.Pkg() == nil {
 		return
 	}
-	full := fn.Pkg().Path() + "." + fn.Name()
+	full := fn.Pkg().Path() + "." + core.RefName(fn)
 	switch full {
 	case "github.com/np-guard/models/pkg/netset.IPBlockFromIPAddress":
 		// panics (index out of range) unless the string is an IPv4 address: net.ParseIP(s).To4() must be known non-nil
@@ -1360,9 +1360,9 @@ func (f *nilFunc) libraryPrecondition(c *ast.CallExpr, fn *types.Func, fm facts.
 		f.a.r.Bad("E2-N9", cst, pos, "netset.IPBlockFromIPAddress indexes net.ParseIP(s).To4() without a check and panics on any IPv6 (or, through its error path, leaves the caller a nil block); the argument is not validated as IPv4 on every path to the call",
 			"function: "+f.fd.Key(), "facts in scope: "+facts.StripVersions(facts.String(fm)))
 	}
-	if fn.Pkg().Path() == "github.com/np-guard/models/pkg/interval" && (fn.Name() == "Min" || fn.Name() == "Max") {
+	if fn.Pkg().Path() == "github.com/np-guard/models/pkg/interval" && (core.RefName(fn) == "Min" || core.RefName(fn) == "Max") {
 		if core.RecvTypeName(fn.Type().(*types.Signature)) == "CanonicalSet" {
-			cst := f.construct("call of interval.CanonicalSet."+fn.Name(), "N9")
+			cst := f.construct("call of interval.CanonicalSet."+core.RefName(fn), "N9")
 			f.a.r.Bad("E2-N9", cst, f.a.p.Pos(c.Pos()), "CanonicalSet.Min/Max panic on an empty set and no emptiness guard is recognised", "function: "+f.fd.Key())
 		}
 	}
@@ -1380,7 +1380,7 @@ func (f *nilFunc) ipv4Validated(arg ast.Expr, fm facts.Formula) bool {
 			continue
 		}
 		fn := core.Callee(f.info, call)
-		if fn == nil || fn.Pkg() == nil || fn.Pkg().Path() != "net" || fn.Name() != "ParseIP" {
+		if fn == nil || fn.Pkg() == nil || fn.Pkg().Path() != "net" || core.RefName(fn) != "ParseIP" {
 			continue
 		}
 		if core.ExprStr(call.Args[0]) != want {
@@ -1438,7 +1438,7 @@ func (a *nilAnalysis) panicReachability() {
 			if core.IsBuiltinCall(info, call, "panic") {
 				what = "panic"
 			} else if fn := core.Callee(info, call); fn != nil && fn.Pkg() != nil {
-				full := fn.Pkg().Path() + "." + fn.Name()
+				full := fn.Pkg().Path() + "." + core.RefName(fn)
 				if full == "os.Exit" || strings.HasPrefix(full, "log.Fatal") || strings.HasPrefix(full, "log.Panic") {
 					what = full
 				}
@@ -1448,7 +1448,7 @@ func (a *nilAnalysis) panicReachability() {
 			}
 			n++
 			c := fd.Key() + ": " + what
-			if fd.Pkg.PkgPath == core.PkgCLI && fd.Obj.Name() == "Execute" && what == "os.Exit" {
+			if fd.Pkg.PkgPath == core.PkgCLI && core.RefName(fd.Obj) == "Execute" && what == "os.Exit" {
 				a.r.OK("E2-N9-exit", c, a.p.Pos(call.Pos()), "the process exit of the CLI entry point (C18-c)")
 			} else {
 				a.r.Bad("E2-N9-exit", c, a.p.Pos(call.Pos()), "explicit "+what+" in library code: an input that reaches it terminates the caller instead of yielding an error", "function: "+fd.Key())
@@ -1697,7 +1697,7 @@ func NilAuxiliary(p *core.Program, r *core.Report) {
 			info := cs.In.Pkg.TypesInfo
 			fm, w, _ := FactsAt(cs.In, cs.Call, func(w *facts.Walker, e ast.Expr) facts.Formula {
 				if c, ok := e.(*ast.CallExpr); ok {
-					if fn := core.Callee(info, c); fn != nil && fn.Name() == "IsPeerIPType" {
+					if fn := core.Callee(info, c); fn != nil && core.RefName(fn) == "IsPeerIPType" {
 						if se, ok := c.Fun.(*ast.SelectorExpr); ok {
 							return facts.Atom("isIP:" + w.Path(se.X))
 						}
@@ -1822,12 +1822,12 @@ func ConstructorCompleteness(p *core.Program, r *core.Report) {
 		for i := 0; i < st.NumFields(); i++ {
 			f := st.Field(i)
 			if _, ok := assumed[f]; ok {
-				out = append(out, path{[]string{f.Name()}, f})
+				out = append(out, path{[]string{core.RefName(f)}, f})
 			}
 			if inner := core.NamedOf(f.Type()); inner != nil {
 				if _, isPtr := f.Type().Underlying().(*types.Pointer); !isPtr && inner.Obj().Pkg() != nil && strings.HasPrefix(inner.Obj().Pkg().Path(), core.ModPath) {
 					for _, sub := range pathsOf(inner, depth+1) {
-						out = append(out, path{append([]string{f.Name()}, sub.names...), sub.fld})
+						out = append(out, path{append([]string{core.RefName(f)}, sub.names...), sub.fld})
 					}
 				}
 			}
@@ -1917,7 +1917,7 @@ func ConstructorCompleteness(p *core.Program, r *core.Report) {
 					r.Add("E2-N12", construct, p.Pos(cl.Pos()), core.Excepted, why)
 					continue
 				}
-				r.Bad("E2-N12", construct, p.Pos(cl.Pos()), fmt.Sprintf("%s.%s is dereferenced without a nil test (e.g. at %s) and is not a declared may-be-nil field, but this construction of %s leaves it nil: an object built here panics when it reaches that dereference", assumed[pa.fld].owner.Obj().Name(), pa.fld.Name(), p.Pos(assumed[pa.fld].pos), nt.Obj().Name()))
+				r.Bad("E2-N12", construct, p.Pos(cl.Pos()), fmt.Sprintf("%s.%s is dereferenced without a nil test (e.g. at %s) and is not a declared may-be-nil field, but this construction of %s leaves it nil: an object built here panics when it reaches that dereference", assumed[pa.fld].owner.Obj().Name(), core.RefName(pa.fld), p.Pos(assumed[pa.fld].pos), nt.Obj().Name()))
 			}
 			return true
 		})
@@ -1937,7 +1937,7 @@ func ConstructorCompleteness(p *core.Program, r *core.Report) {
 			if !isC {
 				return true
 			}
-			if fn := core.Callee(info, c); fn == nil || fn.Name() != "IsPodRepresentative" {
+			if fn := core.Callee(info, c); fn == nil || core.RefName(fn) != "IsPodRepresentative" {
 				return true
 			}
 			if ret := LastReturn(ifs.Body); ret != nil && len(ret.Results) == 2 && core.ExprStr(ret.Results[0]) == "false" {
